@@ -322,3 +322,99 @@ Proof.
   rewrite E in H. rewrite sqrt_square in H by lra.
   replace (1 - NXr a / NXr a) with 0 in H by (field; lra). rewrite Rminus_0_r in H. exact H.
 Qed.
+
+(* the notation of the statements, spelled out *)
+Lemma accuracy_reads {prec emax : Z} (a b : list (binary_float prec emax)) :
+  NXr a = Rsum (map (fun x => B2R x * B2R x) a)
+  /\ DOTr a b = Rsum (map2 (fun p q => B2R p * B2R q) a b)
+  /\ (forall l : list R, Rsum l = fold_right Rplus 0 l)
+  /\ RoundErr.u prec = bpow radix2 (- prec)
+  /\ (forall emin x, RoundErr.nosub prec emin x <-> (x = 0 \/ bpow radix2 (emin + prec - 1) <= Rabs x)).
+Proof. repeat split; auto. Qed.
+
+(* every modelled float back end of the export tables *)
+Theorem f32_cosine_accuracy r (Rg : SimdOps f32) (a b res : list f32) (dims : nat) :
+  f32_ops r = Some Rg -> length a = dims -> length b = dims ->
+  Forall (fun x => is_finite x = true) a -> Forall (fun x => is_finite x = true) b ->
+  Forall (fun x => RoundErr.nosub 24 (-149) (B2R x * B2R x)) a ->
+  Forall (fun x => RoundErr.nosub 24 (-149) (B2R x * B2R x)) b ->
+  Forall2 (fun x y => RoundErr.nosub 24 (-149) (B2R x * B2R y)) a b ->
+  INR (dims + 8) * bpow radix2 (-24) <= / 16 ->
+  4 * bpow radix2 (-126) <= NXr a * NXr b ->
+  NXr a <= bpow radix2 126 -> NXr b <= bpow radix2 126 -> NXr a * NXr b <= bpow radix2 126 ->
+  match generic_cosine Rg float_math dims (init_mem a b res) with
+  | Ok x m => run_ok (init_mem a b res) m /\ is_finite x = true /\
+              Rabs (B2R x - (1 - DOTr a b / sqrt (NXr a * NXr b))) <= 4 * (INR (dims + 8) * bpow radix2 (-24))
+              /\ - (4 * (INR (dims + 8) * bpow radix2 (-24))) <= B2R x <= 2 + 4 * (INR (dims + 8) * bpow radix2 (-24))
+  | _ => False
+  end.
+Proof.
+  intros HR Ha Hb Fa Fb Hna Hnb Hnab HK Hlo HhX HhY HhP.
+  pose proof (f32_ops_faithful r Rg HR) as FL.
+  pose proof (cosine_accuracy Rg _ _ _ FL a b res dims Ha Hb Fa Fb Hna Hnb Hnab HK Hlo HhX HhY HhP) as H1.
+  pose proof (cosine_range Rg _ _ _ FL a b res dims Ha Hb Fa Fb Hna Hnb Hnab HK Hlo HhX HhY HhP) as H2.
+  unfold f32, f64 in *.
+  destruct (generic_cosine Rg float_math dims (init_mem a b res)) as [x m| | |]; try contradiction.
+  destruct H1 as (O & F & E). split; [exact O|]. split; [exact F|]. split; [exact E | exact H2].
+Qed.
+
+Theorem f64_cosine_accuracy r (Rg : SimdOps f64) (a b res : list f64) (dims : nat) :
+  f64_ops r = Some Rg -> length a = dims -> length b = dims ->
+  Forall (fun x => is_finite x = true) a -> Forall (fun x => is_finite x = true) b ->
+  Forall (fun x => RoundErr.nosub 53 (-1074) (B2R x * B2R x)) a ->
+  Forall (fun x => RoundErr.nosub 53 (-1074) (B2R x * B2R x)) b ->
+  Forall2 (fun x y => RoundErr.nosub 53 (-1074) (B2R x * B2R y)) a b ->
+  INR (dims + 8) * bpow radix2 (-53) <= / 16 ->
+  4 * bpow radix2 (-1022) <= NXr a * NXr b ->
+  NXr a <= bpow radix2 1022 -> NXr b <= bpow radix2 1022 -> NXr a * NXr b <= bpow radix2 1022 ->
+  match generic_cosine Rg float_math dims (init_mem a b res) with
+  | Ok x m => run_ok (init_mem a b res) m /\ is_finite x = true /\
+              Rabs (B2R x - (1 - DOTr a b / sqrt (NXr a * NXr b))) <= 4 * (INR (dims + 8) * bpow radix2 (-53))
+              /\ - (4 * (INR (dims + 8) * bpow radix2 (-53))) <= B2R x <= 2 + 4 * (INR (dims + 8) * bpow radix2 (-53))
+  | _ => False
+  end.
+Proof.
+  intros HR Ha Hb Fa Fb Hna Hnb Hnab HK Hlo HhX HhY HhP.
+  pose proof (f64_ops_faithful r Rg HR) as FL.
+  pose proof (cosine_accuracy Rg _ _ _ FL a b res dims Ha Hb Fa Fb Hna Hnb Hnab HK Hlo HhX HhY HhP) as H1.
+  pose proof (cosine_range Rg _ _ _ FL a b res dims Ha Hb Fa Fb Hna Hnb Hnab HK Hlo HhX HhY HhP) as H2.
+  unfold f32, f64 in *.
+  destruct (generic_cosine Rg float_math dims (init_mem a b res)) as [x m| | |]; try contradiction.
+  destruct H1 as (O & F & E). split; [exact O|]. split; [exact F|]. split; [exact E | exact H2].
+Qed.
+
+(* the domain is inhabited: a = b = [1; 1] in f32 on the AVX2+FMA model *)
+Lemma accuracy_nonvacuous :
+  let a : list f32 := [Bone; Bone] in
+  match f32_ops Avx2Fma with
+  | Some Rg => match generic_cosine Rg float_math 2 (init_mem a a []) with
+               | Ok r _ => Rabs (B2R r) <= 4 * (INR 10 * bpow radix2 (-24))
+               | _ => False
+               end
+  | None => False
+  end.
+Proof.
+  cbv zeta. cbn [f32_ops].
+  assert (N : NXr ([Bone; Bone] : list (binary_float 24 128)) = 2).
+  { unfold NXr. cbn [map Rsum fold_right]. rewrite !Bone_correct. lra. }
+  assert (B2 : bpow radix2 (-126) <= / 4).
+  { change (/ 4) with (bpow radix2 (-2)). apply bpow_le. lia. }
+  assert (B3 : 4 <= bpow radix2 126).
+  { change 4 with (bpow radix2 2). apply bpow_le. lia. }
+  assert (B4 : bpow radix2 (-24) <= / 1024).
+  { change (/ 1024) with (bpow radix2 (-10)). apply bpow_le. lia. }
+  unfold f32.
+  apply (cosine_identical (avx2_float_ops 8 true) _ _ _ (f32_ops_faithful Avx2Fma _ eq_refl)
+           ([Bone; Bone] : list (binary_float 24 128)) [] 2).
+  - reflexivity.
+  - constructor; [apply is_finite_Bone|]. constructor; [apply is_finite_Bone|]. constructor.
+  - assert (H1 : RoundErr.nosub 24 (SpecFloat.emin 24 128) (B2R (@Bone 24 128 _ _) * B2R (@Bone 24 128 _ _))).
+    { rewrite Bone_correct. right. rewrite Rmult_1_l, Rabs_R1.
+      change 1 with (bpow radix2 0). apply bpow_le. unfold SpecFloat.emin. lia. }
+    constructor; [exact H1|]. constructor; [exact H1|]. constructor.
+  - unfold RoundErr.u. replace (INR (2 + 8)) with 10 by (simpl; lra). change (- (24))%Z with (-24)%Z.
+    pose proof (bpow_gt_0 radix2 (-24)). lra.
+  - rewrite N. replace (SpecFloat.emin 24 128 + 24 - 1)%Z with (-126)%Z by (unfold SpecFloat.emin; lia). lra.
+  - rewrite N. change (128 - 2)%Z with 126%Z. lra.
+  - rewrite N. change (128 - 2)%Z with 126%Z. lra.
+Qed.
